@@ -349,7 +349,7 @@ func (r *Run) genOptCode(c uint16, depth int) gnode {
 		var subs dhcpv6.Options
 		w := w32(en)
 		for k := r.Rng.Intn(4); k > 0; k-- {
-			sc, d := uint16(r.n16()), r.blob(20)
+			sc, d := uint16(r.subCode(0)), r.blob(20)
 			subs = append(subs, &dhcpv6.OptionGeneric{OptionCode: dhcpv6.OptionCode(sc), OptionData: d})
 			w = append(w, tlvb(sc, d)...)
 		}
@@ -418,7 +418,7 @@ func (r *Run) genOptCode(c uint16, depth int) gnode {
 				subs = append(subs, &dhcpv6.NTPSuboptionSrvFQDN{Labels: rfc1035label.Labels{Labels: names}})
 				w = append(w, tlvb(3, nw)...)
 			case 3:
-				sc, d := uint16(4+r.Rng.Intn(65000)), r.blob(10)
+				sc, d := uint16(r.subCode(3)), r.blob(10)
 				subs = append(subs, &dhcpv6.OptionGeneric{OptionCode: dhcpv6.OptionCode(sc), OptionData: d})
 				w = append(w, tlvb(sc, d)...)
 			}
@@ -1186,4 +1186,18 @@ func toggleCase(s string) (string, bool) {
 		}
 	}
 	return s, false
+}
+
+// subCode: a sub-option code of another number space (vendor options, NTP sub-options): often one that collides with
+// a top-level option code, with a payload that is not that option's layout; codes below min are avoided
+func (r *Run) subCode(min int) int {
+	for {
+		c := r.n16()
+		if r.Rng.Intn(2) == 0 {
+			c = int(knownV6Codes[r.Rng.Intn(len(knownV6Codes))])
+		}
+		if c > min {
+			return c
+		}
+	}
 }
